@@ -30,6 +30,8 @@ def run(ctx):
   from . import c11
   ctx.borrow(c11.rule_dispatch, "R-C10-ARITH", lambda r: r.where.endswith(("BatchAddX", "BatchAddSubtractX")))
   ctx.borrow(c11.rule_formula, "R-C10-ARITH", lambda r: r.where.endswith(("BatchAddX", "BatchAddSubtractX")))
+  rule_lookup(ctx)
+  ctx.expect("R-C10-LOOKUP", 2, "BatchDL and BatchDLOfDifferences")
   ctx.expect("R-C10-ARITH", 5, "dispatch and formulas of BatchAddX / BatchAddSubtractX")
   ctx.expect("R-C10-COVER", 4, "candidates, step, adjacency, reach")
   ctx.expect("R-C10-TABLE", 4, "table coverage + point sequence")
@@ -523,3 +525,42 @@ def rule_dup(ctx):
       oke = False
   ctx.record(R, f.where, "early return only without pairs", oke, "returns early only when points is empty or fewer than two points overall" if oke else
              "early return under another condition: pairs would be skipped")
+
+
+def rule_lookup(ctx, R="R-C10-LOOKUP"):
+  """Both searches look a candidate x up in the baby-step table: the entry `self._table[x]` may only be read for candidates that are in the table
+  (KeyError otherwise), and every candidate that is in the table must reach the verification Multiply(base, dl) - a hit that is not followed up is a
+  missed key."""
+  repo = ctx.repo
+  from .c11 import curve_cls
+  cls = curve_cls(repo)
+  TAB = sym.mk("attr", P("param", "self"), "_table")
+  for name in ("BatchDL", "BatchDLOfDifferences"):
+    f = repo.find_method(cls, name)
+    w = sym.Walker(repo, f)
+    w.run()
+    probs = []
+    n_look = 0
+    hits = set()
+    for e in w.events:
+      vals = []
+      if e.kind == "call":
+        vals = [x for x in e.data["args"] if isinstance(x, Poly)]
+      elif e.kind in ("assign", "store", "return") and isinstance(e.data.get("value"), Poly):
+        vals = [e.data["value"]]
+      for v in vals:
+        for a in v.all_atoms():
+          if a.kind == "idx" and as_poly(a.args[0]) == TAB:
+            n_look += 1
+            key = as_poly(a.args[1])
+            ok_in = any(fc[0] == "cmp" and fc[1] == "In" and isinstance(fc[2], Poly) and fc[2] == key and isinstance(fc[3], Poly) and fc[3] == TAB for fc in e.state.facts)
+            if not ok_in:
+              probs.append("line %s reads self._table[%r] without having tested that the candidate is in the table" % (getattr(e.node, "lineno", "?"), key))
+            elif e.kind == "call" and e.data["name"] == "meth:Multiply":
+              hits.add(repr(key))
+    if n_look == 0:
+      probs.append("the table is never consulted")
+    elif not hits:
+      probs.append("a candidate found in the table is never verified with Multiply(base, dl)")
+    ctx.record(R, f.where, "table entries read only for candidates in the table; hits verified", not probs, "; ".join(sorted(set(probs))[:3]) or
+               "%d reads of self._table[x], all under `x in self._table`, feeding Multiply(base, dl)" % n_look)
